@@ -1,7 +1,13 @@
 import Lox.Drv.Common
-/-! Driver ops of the Dec vertical: `handle op payload` answers one protocol line, `none` = unknown op. -/
+import Lox.Dec.DrvResolve
+import Lox.Dec.DrvTerminals
+/-! Driver ops of the Dec vertical: `handle op payload` answers one protocol line, `none` = unknown op.
+Each sub-area keeps its ops in its own module (`DrvResolve`: `dec.resolve`, `dec.table`;
+`DrvTerminals`: `dec.terminals`, `dec.createnames`); this module only chains them. -/
 namespace Lox.Dec
 
-def handle (_op _payload : String) : Option String := none
+def handle (op payload : String) : Option String :=
+  (handleResolve op payload).orElse fun _ =>
+  Terminals.handleTerminals op payload
 
 end Lox.Dec
